@@ -24,6 +24,7 @@ struct GenOpts {
   bool dense_cluster = false;    // many single-geom free bodies within a few cm (broad-phase pair list stress)
   int cluster_n = 0;
   bool cluster_convex = false;   // clusters also contain ellipsoids and cylinders (pairs that go through the convex GJK/EPA path)
+  double cluster_z = 0.3;        // height of the cluster above the floor (0.04: every body already touches the floor: one island per group)
   int cluster_group = 0;         // >0: the cluster is split into groups of this many bodies, one metre apart (one constraint island each)
   bool explicit_pairs = false;   // many <pair> elements
   bool mocap = true, keyframes = true, tendons = true, equalities = true, actuators = true, sensors = true;
@@ -33,10 +34,13 @@ struct GenOpts {
   double sleep_tolerance = 0;    // >0: override (large values make trees fall asleep within tens of steps)
   double extra_damping = 0;      // added joint damping so that scenes settle quickly
   bool autoreset_off = false;
+  bool history = true;           // some sensors / actuators get nsample / interval / delay attributes (history buffers)
+  double flex_chance = 0.0;      // probability of a small flexcomp cloth (drivers that can afford flex models set it)
 };
 
 struct Model {
   std::string xml;
+  int nu = 0;                     // number of control inputs (differs from nact when an actuator takes several)
   int nbody = 0, njoint = 0, ngeom = 0, nact = 0, nsensor = 0, ntendon = 0, neq = 0, nkey = 0, nmocap = 0, npair = 0;
   int integrator = 0, solver = 0, cone = 0;
   bool sleep = false, island = true;
@@ -151,7 +155,7 @@ struct Gen {
       for (int i = 0; i < n; i++) {
         if (!keep()) continue;
         std::string nm = "c" + std::to_string(i);
-        wb += "<body name=\"" + nm + "\" pos=\"" + vec3(0.02 * (i % 4) + (o.cluster_group > 0 ? 1.0 * (i / o.cluster_group) : 0.0), 0.02 * ((i / 4) % 4), 0.3 + 0.015 * (i / 16)) + "\"><freejoint/><geom name=\"g_" + nm + "\" type=\"" +
+        wb += "<body name=\"" + nm + "\" pos=\"" + vec3(0.02 * (i % 4) + (o.cluster_group > 0 ? 1.0 * (i / o.cluster_group) : 0.0), 0.02 * ((i / 4) % 4), o.cluster_z + (o.cluster_group == 1 ? 0.0 : 0.015 * (i / 16))) + "\"><freejoint/><geom name=\"g_" + nm + "\" type=\"" +
               (o.cluster_convex && i % 5 == 3 ? "ellipsoid\" size=\"0.05 0.04 0.03" : o.cluster_convex && i % 5 == 4 ? "cylinder\" size=\"0.04 0.04"
                : i % 3 == 0 ? "sphere\" size=\"0.05" : i % 3 == 1 ? "box\" size=\"0.04 0.04 0.04" : "capsule\" size=\"0.03 0.05") + "\"/></body>";
         bodies.push_back(nm); freebodies.push_back(nm); geoms.push_back("g_" + nm); m.nbody++; m.ngeom++; m.njoint++;
@@ -164,6 +168,16 @@ struct Gen {
         body(b, "b" + std::to_string(t), 0, true, o.spread * (t % 3) + r.uniform(-0.05, 0.05), o.spread * (t / 3) + r.uniform(-0.05, 0.05), r.uniform(0.12, 0.6));
         wb += b;
       }
+    }
+    if (o.flex_chance > 0 && r.chance(o.flex_chance) && keep()) {
+      // a small cloth: 2-D grid with edge equalities or elasticity, pinned at one corner through a connect on its first vertex body
+      int nx = r.range(2, 4), ny = r.range(2, 4);
+      bool elastic = r.chance(0.5);
+      wb += "<body name=\"clothroot\" pos=\"" + vec3(-0.8, -0.8, 0.5) + "\"><flexcomp type=\"grid\" count=\"" + std::to_string(nx) + " " + std::to_string(ny) + " 1\" spacing=\"0.06 0.06 0.06\" mass=\"0.2\" name=\"cloth\" radius=\"0.01\" dim=\"2\">" +
+            (elastic ? "<edge equality=\"false\"/><elasticity young=\"" + f(r.uniform(5e3, 5e4)) + "\" poisson=\"0.2\" thickness=\"0.005\" damping=\"1e-4\"" + (r.chance(0.5) ? " elastic2d=\"bend\"" : "") + "/>"
+                     : "<edge equality=\"true\" damping=\"0.01\"/>") +
+            "</flexcomp></body>";
+      m.nbody += nx * ny;
     }
     if (o.mocap && r.chance(0.4) && keep()) {
       wb += "<body name=\"mocap0\" mocap=\"true\" pos=\"0.3 0.3 0.8\"><geom name=\"g_mocap0\" type=\"sphere\" size=\"0.05\"" + std::string(r.chance(0.5) ? " contype=\"0\" conaffinity=\"0\"" : "") + "/><site name=\"s_mocap\" size=\"0.01\"/></body>";
@@ -208,12 +222,12 @@ struct Gen {
     std::vector<std::string> tendons;
     if (o.tendons && !o.dense_cluster) {
       if (alljoints1d.size() >= 2 && r.chance(0.4) && keep()) {
-        ten += "<fixed name=\"t_fixed\"" + std::string(r.chance(0.5) ? " limited=\"true\" range=\"-0.5 0.5\"" : "") + (r.chance(0.3) ? " stiffness=\"5\"" : "") + "><joint joint=\"" + alljoints1d[0] +
+        ten += "<fixed name=\"t_fixed\"" + std::string(r.chance(0.5) ? std::string(" limited=\"true\" range=\"-0.5 0.5\"") + (r.chance(0.4) ? " margin=\"" + f(r.uniform(0.02, 0.2)) + "\"" : "") : "") + (r.chance(0.3) ? " stiffness=\"5\"" : "") + "><joint joint=\"" + alljoints1d[0] +
                "\" coef=\"1\"/><joint joint=\"" + alljoints1d[alljoints1d.size() - 1] + "\" coef=\"-0.5\"/></fixed>";
         tendons.push_back("t_fixed"); m.ntendon++;
       }
       if (sites.size() >= 3 && r.chance(0.4) && keep()) {
-        ten += "<spatial name=\"t_spatial\"" + std::string(r.chance(0.5) ? " limited=\"true\" range=\"0 1.2\"" : "") + (r.chance(0.4) ? " stiffness=\"10\" damping=\"0.5\"" : "") + "><site site=\"" + sites[1] +
+        ten += "<spatial name=\"t_spatial\"" + std::string(r.chance(0.5) ? std::string(" limited=\"true\" range=\"0 ") + (r.chance(0.5) ? "1.2" : f(r.uniform(0.4, 0.9))) + "\"" + (r.chance(0.5) ? " margin=\"" + f(r.uniform(0.02, 0.2)) + "\"" : "") : "") + (r.chance(0.4) ? " stiffness=\"10\" damping=\"0.5\"" : "") + "><site site=\"" + sites[1] +
                "\"/><site site=\"" + sites[2] + "\"/>" + (sites.size() > 3 && r.chance(0.5) ? "<site site=\"" + sites[3] + "\"/>" : "") + "</spatial>";
         tendons.push_back("t_spatial"); m.ntendon++;
       }
@@ -225,20 +239,34 @@ struct Gen {
         if (!r.chance(0.5) || !keep()) continue;
         std::string an = "a" + std::to_string(m.nact);
         int k = r.below(5);
-        if (k == 0) act += "<motor name=\"" + an + "\" joint=\"" + alljoints1d[i] + "\" gear=\"" + f(r.uniform(0.5, 3)) + "\"" + (r.chance(0.5) ? " ctrllimited=\"true\" ctrlrange=\"-1 1\"" : "") + "/>";
+        if (k == 0) act += "<motor name=\"" + an + "\" joint=\"" + alljoints1d[i] + "\" gear=\"" + f(r.uniform(0.5, 3)) + "\"" + (r.chance(0.5) ? " ctrllimited=\"true\" ctrlrange=\"-1 1\"" : "") +
+                           (o.history && r.chance(0.2) ? " delay=\"" + f(r.uniform(0.004, 0.02)) + "\" nsample=\"" + std::to_string(r.range(3, 7)) + "\"" : "") + "/>";
         else if (k == 1) act += "<position name=\"" + an + "\" joint=\"" + alljoints1d[i] + "\" kp=\"" + f(r.uniform(1, 20)) + "\"/>";
         else if (k == 2) act += "<velocity name=\"" + an + "\" joint=\"" + alljoints1d[i] + "\" kv=\"" + f(r.uniform(0.1, 2)) + "\"/>";
-        else if (k == 3) act += "<general name=\"" + an + "\" joint=\"" + alljoints1d[i] + "\" dyntype=\"integrator\" gainprm=\"1\" actlimited=\"true\" actrange=\"-1 1\"/>";
-        else act += "<general name=\"" + an + "\" joint=\"" + alljoints1d[i] + "\" dyntype=\"filter\" dynprm=\"0.1\" gainprm=\"2\"/>";
-        m.nact++;
+        else if (k == 3) act += "<general name=\"" + an + "\" joint=\"" + alljoints1d[i] + "\" dyntype=\"integrator\" gainprm=\"1\" actlimited=\"true\" actrange=\"-1 1\"" +
+                                (o.history && r.chance(0.25) ? " delay=\"" + f(r.uniform(0.004, 0.02)) + "\" nsample=\"" + std::to_string(r.range(3, 7)) + "\"" : "") + "/>";
+        else if (r.chance(0.75)) act += "<general name=\"" + an + "\" joint=\"" + alljoints1d[i] + "\" dyntype=\"filter\" dynprm=\"0.1\" gainprm=\"2\"" +
+                                (o.history && r.chance(0.3) ? " delay=\"" + f(r.uniform(0.004, 0.02)) + "\" nsample=\"" + std::to_string(r.range(3, 7)) + "\"" + (r.chance(0.4) ? " interp=\"linear\"" : "") : "") + "/>";
+        else { act += "<dcmotor name=\"" + an + "\" joint=\"" + alljoints1d[i] + "\" motorconst=\"1.0\" resistance=\"1.0\" input=\"pos vel\" controller=\"" + f(r.uniform(0, 10)) + " 0 " + f(r.uniform(0, 5)) + "\"/>"; m.nu++; }   // two control inputs
+        m.nact++; m.nu++;
       }
-      if (!tendons.empty() && r.chance(0.4) && keep()) { act += "<motor name=\"a_t\" tendon=\"" + tendons[0] + "\" gear=\"1\"/>"; m.nact++; }
-      if (!freebodies.empty() && sites.size() > 1 && r.chance(0.2) && keep()) { act += "<motor name=\"a_s\" site=\"" + sites[1] + "\" gear=\"0 0 1 0 0 0\"/>"; m.nact++; }
+      if (!tendons.empty() && r.chance(0.4) && keep()) { act += "<motor name=\"a_t\" tendon=\"" + tendons[0] + "\" gear=\"1\"/>"; m.nact++; m.nu++; }
+      if (!freebodies.empty() && sites.size() > 1 && r.chance(0.2) && keep()) { act += "<motor name=\"a_s\" site=\"" + sites[1] + "\" gear=\"0 0 1 0 0 0\"/>"; m.nact++; m.nu++; }
     }
     // ---------------- sensors
     std::string sen;
     if (o.sensors) {
-      for (size_t i = 0; i < alljoints1d.size() && i < 3; i++) if (r.chance(0.5) && keep()) { sen += "<jointpos joint=\"" + alljoints1d[i] + "\"/><jointvel joint=\"" + alljoints1d[i] + "\"/>"; m.nsensor += 2; }
+      for (size_t i = 0; i < alljoints1d.size() && i < 3; i++) if (r.chance(0.5) && keep()) {
+        // optional history buffer: sampled on an interval, delayed, or plain buffered
+        std::string h;
+        if (o.history && r.chance(0.35)) {
+          int k = r.below(3);
+          h = k == 0 ? " interval=\"" + f(r.uniform(0.005, 0.03)) + "\" nsample=\"" + std::to_string(r.range(2, 5)) + "\""
+            : k == 1 ? " delay=\"" + f(r.uniform(0.004, 0.03)) + "\" nsample=\"" + std::to_string(r.range(3, 8)) + "\"" + (r.chance(0.5) ? " interp=\"linear\"" : "")
+                     : " nsample=\"" + std::to_string(r.range(2, 6)) + "\"";
+        }
+        sen += "<jointpos joint=\"" + alljoints1d[i] + "\"" + h + "/><jointvel joint=\"" + alljoints1d[i] + "\"/>"; m.nsensor += 2;
+      }
       for (size_t i = 1; i < sites.size() && i < 4; i++) {
         if (!r.chance(0.5) || !keep()) continue;
         int k = r.below(6);
@@ -260,7 +288,12 @@ struct Gen {
     if (!sen.empty()) x += "<sensor>" + sen + "</sensor>";
     if (o.keyframes && r.chance(0.5) && keep()) {
       x += "<keyframe><key name=\"k0\" time=\"0.5\"/>";
-      if (r.chance(0.5) && m.nact) { std::string c; for (int i = 0; i < m.nact; i++) c += (i ? " " : "") + f(r.uniform(-0.5, 0.5)); x += "<key name=\"k1\" time=\"1.25\" ctrl=\"" + c + "\"/>"; m.nkey++; }
+      if (r.chance(0.5) && m.nu) {
+        for (int kk = 1; kk <= (r.chance(0.5) ? 2 : 1); kk++) {
+          std::string c; for (int i = 0; i < m.nu; i++) c += (i ? " " : "") + f(r.uniform(-0.5, 0.5));
+          x += "<key name=\"k" + std::to_string(kk) + "\" time=\"" + f(1.25 * kk) + "\" ctrl=\"" + c + "\"/>"; m.nkey++;
+        }
+      }
       x += "</keyframe>";
       m.nkey++;
     }
